@@ -1,6 +1,6 @@
 (* C10 - A committed tree reads back exactly; shared nodes live until unreferenced. *)
 From Coq Require Import NArith List Bool.
-From PDB Require Import Model.MultiTree Proofs.MultiTreeProofs.
+From PDB Require Import Model.MultiTree Proofs.MultiTreeProofs Proofs.MultiTreeReadback.
 Import ListNotations.
 Open Scope N_scope.
 
@@ -16,6 +16,37 @@ Proof. exact pack_roundtrip. Qed.
 Theorem C10_unrepresentable_rejected : forall cf s k t rest,
   255 < max_fanout t -> mcommit_tx cf s (UInsertTree k t :: rest) = (s, 1).
 Proof. exact unrepresentable_rejected. Qed.
+
+(* Read-back. [root_is g r t]: r is a root carrying t's data whose children are, one by one, a node
+   carrying the supplied subtree (a new child) or exactly the address that was named (an existing
+   child); [g] is the node lookup of the state, [carries] descends through it. For EVERY tree that
+   can be represented and every state: as soon as the commit call has returned, the tree reads back
+   exactly as supplied (through the commit overlay) ... *)
+Theorem C10_insert_reads_back_after_commit :
+  forall cf s k t s' code, max_fanout t <= 255 -> mcommit_tx cf s [UInsertTree k t] = (s', code) ->
+  code = 0 /\ root_is (MultiTree.get_node s') (MultiTree.get_root s' k) t.
+Proof. exact insert_readback_commit. Qed.
+
+(* ... and after process_commits has written it (the overlay entries are gone, the nodes are read from
+   the store), when nothing else was queued and the key was not present before *)
+Theorem C10_insert_reads_back_after_processing :
+  forall cf s k t s' code, max_fanout t <= 255 -> mqueue s = [] -> alook (roots s) k = None ->
+  mcommit_tx cf s [UInsertTree k t] = (s', code) ->
+  let s'' := mprocess cf s' in
+  mqueue s'' = [] /\ root_is (MultiTree.get_node s'') (MultiTree.get_root s'' k) t.
+Proof. exact insert_readback_processed. Qed.
+
+(* Sharing: a node that another parent still references (count two or more) survives a dereference
+   untouched, only its count goes down; a leaf nobody else references is removed. *)
+Theorem C10_shared_node_survives_dereference :
+  forall fuel s id c, alook (nrc s) id = Some c -> 2 <= c ->
+  let s' := deref_children (S (S fuel)) s [id] in
+  nodes s' = nodes s /\ roots s' = roots s /\ alook (nrc s') id = (if 2 <? c then Some (c - 1) else None).
+Proof. exact shared_node_survives. Qed.
+Theorem C10_unshared_leaf_is_reclaimed :
+  forall fuel s id d, alook (nrc s) id = None -> MultiTree.get_node s id = Some {| n_data := d; n_children := [] |} -> alook (aov s) id = None ->
+  let s' := deref_children (S (S fuel)) s [id] in alook (nodes s') id = None.
+Proof. exact unshared_leaf_is_reclaimed. Qed.
 
 (* Non-vacuity and read-back on the model: a tree with a shared node (the same existing child named
    twice), then the first tree is dereferenced: the shared node stays, its count drops. *)
@@ -38,3 +69,7 @@ Proof. vm_compute. repeat split; reflexivity. Qed.
 
 Print Assumptions C10_node_pack_roundtrip.
 Print Assumptions C10_unrepresentable_rejected.
+Print Assumptions C10_insert_reads_back_after_commit.
+Print Assumptions C10_insert_reads_back_after_processing.
+Print Assumptions C10_shared_node_survives_dereference.
+Print Assumptions C10_unshared_leaf_is_reclaimed.
